@@ -1,13 +1,31 @@
 (* Props/C15.v — Shipped scenarios always generate valid, exactly round-trippable messages.
-   Property theorems only.  PARTIAL: the draws of the scenario generators (datafake / fake) are not modelled;
-   what a theorem carries is the numeric part of "converts back ... without numeric rounding": an amount that the
-   generator produces as (the binary64 nearest to) a decimal with j decimals is published with k >= j decimals as
-   exactly that decimal, whenever the printed number has at most 15 digits.  Everything else is explored per draw
-   (stream `scenario`, exact comparison). *)
+   Property theorems only.  PARTIAL.  What the theorems carry:
+   (1) every draw: for every shipped scenario file and every text leaf that fills a constrained component of a field or
+       header, EVERY value the leaf's template can take — whatever the generators draw from their word lists, alphabets
+       and number ranges — has the characters, the length and the first / last character the component requires
+       (Scenario/Lang.v: the template language and the generators' languages; gen/Scenarios.v: the scenario files, the
+       word lists of the `fake` crate and the requirement table, regenerated on every run);
+   (2) the numeric part of "converts back ... without numeric rounding": an amount that the generator produces as (the
+       binary64 nearest to) a decimal with j decimals is published with k >= j decimals as exactly that decimal.
+   What they do not carry: that a value of the required shape is published, parsed, validated and read back unchanged
+   by the library — that is explored per draw, with draws directed at the edges of (1) (stream `scenario`). *)
 
-From Coq Require Import ZArith.
-From SwiftMT Require Import Base.Bytes Num.Amount Num.AmountFacts.
+From Coq Require Import List ZArith.
+From SwiftMT Require Import Base.Bytes Num.Amount Num.AmountFacts Scenario.Lang Scenario.Sound gen.Scenarios Scenario.Instance.
 Local Open Scope Z_scope.
+
+Theorem C15_every_leaf_fits_in_every_draw : forall file idxs i,
+  In (file, idxs) scenario_leaves -> In i idxs ->
+  exists tag key t rs, nth_error distinct_leaves i = Some (tag, key, t) /\ req_of tag key reqs = Some rs /\
+    forall w, den t w -> exists r, In r rs /\ Gv r w.
+Proof. exact every_leaf_fits. Qed.
+
+(* the analysis behind it, for any template and any requirement *)
+Theorem C15_abstraction_is_sound : forall t w, den t w -> G (abs t) w.
+Proof. exact abs_sound. Qed.
+
+Theorem C15_fit_is_sound : forall t r, fits (abs t) r = true -> forall w, den t w -> Gv r w.
+Proof. exact fits_every_draw. Qed.
 
 Theorem C15_generated_decimal_amounts_publish_exactly : forall n j k, 0 <= n -> (j <= k)%nat ->
   n * 10 ^ Z.of_nat (k - j) < 10 ^ 15 ->
@@ -18,5 +36,8 @@ Proof. exact print_exact. Qed.
 Theorem C15_published_amounts_read_as_written : forall s n j, parse_amount_dec s = Some (n, j) -> 0 <= n < 10 ^ 17.
 Proof. exact amount_finite_nonneg. Qed.
 
+Print Assumptions C15_every_leaf_fits_in_every_draw.
+Print Assumptions C15_abstraction_is_sound.
+Print Assumptions C15_fit_is_sound.
 Print Assumptions C15_generated_decimal_amounts_publish_exactly.
 Print Assumptions C15_published_amounts_read_as_written.
